@@ -6,7 +6,22 @@ from .simdev import Recorder, VClock
 
 
 class SimTimeout(Exception):
-    """The in-memory transport's timeout error."""
+    """The in-memory transport's timeout error (fallback when adb_shell is not importable yet)."""
+
+
+_timeout_cls = []
+
+
+def timeout_class():
+    """The in-memory transport's timeout error: a subclass of the library's own TcpTimeoutException (what the real
+    transports raise), still named SimTimeout, so that code which treats transport timeouts specially sees one."""
+    if not _timeout_cls:
+        try:
+            from adb_shell.exceptions import TcpTimeoutException
+            _timeout_cls.append(type('SimTimeout', (TcpTimeoutException, SimTimeout), {}))
+        except Exception:  # noqa
+            _timeout_cls.append(SimTimeout)
+    return _timeout_cls[0]
 
 
 class SimReset(ConnectionResetError):
@@ -24,7 +39,7 @@ class Fault(object):
 
 class PipeCore(object):
     def __init__(self, dev, rec=None, clock=None, frag=None, wcap=None, stall='raise', tick=0.0, default_timeout=10.0, fault=None,
-                 log_io=False, exc_timeout=SimTimeout):
+                 log_io=False, exc_timeout=None):
         self.dev = dev
         self.rec = rec or dev.rec
         self.clock = clock or VClock()
@@ -35,7 +50,7 @@ class PipeCore(object):
         self.default_timeout = default_timeout
         self.fault = fault or Fault()
         self.log_io = log_io
-        self.exc_timeout = exc_timeout
+        self.exc_timeout = exc_timeout or timeout_class()
         self.cur = b''
         self.cur_meta = None
         self.cur_len = 0
@@ -67,7 +82,7 @@ class PipeCore(object):
         f = self.fault.at.get(k)
         if f is not None and (self.fault.only is None or kind in self.fault.only):
             self.fault.fired.append((k, kind, f))
-            self.rec.ev('fault', k=k, call=kind, kind=f)
+            self.rec.ev('fault', k=k, call=kind, fault=f)
             if f == 'timeout':
                 raise self.exc_timeout('injected timeout at call %d (%s)' % (k, kind))
             if f == 'reset':
